@@ -133,6 +133,11 @@ func c20text(g *zsim.Stream) string {
 	case 4:
 		return pick(g, "", " info", "info ", "inf", "debugg", "Level(1)", "0", "-1", "warn\n", "err", "trace", "information", "INFO\x00", "ｉｎｆｏ", "fatal!", "d e b u g")
 	}
+	if g.Chance(3) {
+		// what String() and CapitalString() print for levels without a name,
+		// around both ends of the range: not names
+		return fmt.Sprintf(pick(g, "Level(%d)", "LEVEL(%d)", "level(%d)"), g.Draw(14)-4)
+	}
 	return pick(g, "LEVEL(3)", "1", "true", "null", "{}", "İnfo", "wArNiNg ")
 }
 
